@@ -51,7 +51,7 @@ Calls ==
           al \in IF Early THEN {<<r>> : r \in AllocReqs} \cup {<<q[1], q[2]>> : q \in {z \in AllocReqs \X AllocReqs : z[1].tmax <= z[2].tmax}} ELSE {}}
   \cup (IF Rich THEN {Call0 @@ [a |-> "Transfer", c |-> "c1", to |-> Reg, amt |-> VR.claims[i].size, allocs |-> <<>>,
                                  exts |-> <<[provider |-> Prov, claim |-> i, tmax |-> VR.claims[i].tmax + x]>>, ids |-> <<>>] :
-                           i \in DOMAIN VR.claims, x \in {24, 0}} ELSE {})
+                           i \in DOMAIN VR.claims, x \in {24, 0, -1}} ELSE {})
   \cup (IF Path = "ni" \/ Rich
         THEN {Call0 @@ [a |-> "CommitNI", m |-> Prov, n |-> Fresh, exp |-> epoch + LifeNI + x, d |-> (Cur + k) % D] :
                  x \in IF Early THEN {0} \cup (IF Rich THEN {12, -1} ELSE {}) ELSE {}, k \in {2} \cup (IF Rich THEN {3, 1} ELSE {})}
@@ -99,7 +99,7 @@ Marks ==
   \cup UNION {{Open(SM, SM.sec[n].d, epoch) + W, Open(SM, SM.sec[n].d, epoch) - W} :
                n \in {k \in LiveNs : Rich \/ (SM.sec[k].vs = 0 /\ epoch <= SM.sec[k].pat + W)}}
   \cup UNION {{VR.claims[i].tstart + VR.claims[i].tmax - 1, VR.claims[i].tstart + VR.claims[i].tmax} : i \in DOMAIN VR.claims}
-  \cup {VR.allocs[i].exp : i \in DOMAIN VR.allocs} \cup {VR.allocs[i].exp + 1 : i \in DOMAIN VR.allocs}
+  \cup {VR.allocs[i].exp - 1 : i \in DOMAIN VR.allocs} \cup {VR.allocs[i].exp : i \in DOMAIN VR.allocs}
   \cup {SM.sec[n].at + PCDelay + 1 : n \in Pre(SM)}
 Ahead == {m \in Marks : m > epoch}
 NextMarks == {m \in Ahead : Cardinality({x \in Ahead : x < m}) < (IF Rich THEN 4 ELSE 2)}
